@@ -736,7 +736,7 @@ def estimate_symbolic_duration(
     div : int
         Number of units per quarter note
     eps : float, optional (default: 10**-3)
-        Tolerance in case of imprecise matches
+        Tolerance (in units of `div`) in case of imprecise matches
     return_com_durations : bool, optional (default: False)
         If True, return composite durations as well.
 
@@ -768,6 +768,10 @@ def estimate_symbolic_duration(
     qdur = dur / div
     if qdur == 0:
         return {}
+    # `eps` only absorbs numerical imprecision: it is a tolerance in divisions, not in
+    # quarters, otherwise large `div` values match durations that are not equal to the
+    # notated value (22/960 is not a dotted 256th, which lasts 22.5 divisions)
+    eps = eps / div
     i = find_nearest(DURS, qdur)
     if np.abs(qdur - DURS[i]) < eps:
         return SYM_DURS[i].copy()
